@@ -24,8 +24,13 @@ def tidy_input_string(s: str) -> str:
     return ''.join(t).lower().replace('_', '')
 
 
-@functools.lru_cache(CACHE_SIZE)
 def str_to_bitstore(s: str) -> BitStore:
+    # Some tokens (e.g. 'e4m3mxfp=1000' or 'ue=3') give different results for different option values.
+    return _str_to_bitstore(s, bitstring.options.lsb0, bitstring.options.mxfp_overflow)
+
+
+@functools.lru_cache(CACHE_SIZE)
+def _str_to_bitstore(s: str, lsb0: bool, mxfp_overflow: str) -> BitStore:
     _, tokens = bitstring.utils.tokenparser(s)
     bs = BitStore()
     for token in tokens:
